@@ -364,14 +364,30 @@ func c13Scaling(c *Ctx, sx *symx.Ctx) {
 		}
 	}
 	var callCopies []*ssa.Call
+	carrierOwner, carrierField := "", ""
 	for _, ref := range *table.Referrers() {
 		switch x := ref.(type) {
 		case *ssa.MapUpdate, *ssa.Lookup, *ssa.Return, *ssa.DebugRef:
 		case *ssa.Store:
 			// kept in a local variable that a closure of the same function captures
-			if al, ok := x.Addr.(*ssa.Alloc); !ok || x.Val != ssa.Value(table) || al.Parent() != home {
-				r.Bad("O-2", fk+"#boost-table-escapes", c.P.Pos(x.Pos()), "the boost table is stored outside the function that builds it")
+			if al, ok := x.Addr.(*ssa.Alloc); ok && x.Val == ssa.Value(table) && al.Parent() == home {
+				continue
 			}
+			// or handed on in a field of a local scoring-pass object whose
+			// methods only look it up
+			if fa, ok := x.Addr.(*ssa.FieldAddr); ok && x.Val == ssa.Value(table) && carrierOwner == "" {
+				if al, ok := fa.X.(*ssa.Alloc); ok && al.Parent() == home {
+					owner, field := ssau.FieldOwner(fa), ssau.FieldName(fa)
+					if why := c13FieldOnlyLookedUp(c, owner, field, x); why == "" {
+						carrierOwner, carrierField = owner, field
+						continue
+					} else {
+						r.Bad("O-2", fk+"#boost-table-escapes", c.P.Pos(x.Pos()), "the boost table is kept in "+shortName(owner)+"."+field+", "+why)
+						continue
+					}
+				}
+			}
+			r.Bad("O-2", fk+"#boost-table-escapes", c.P.Pos(x.Pos()), "the boost table is stored outside the function that builds it")
 		case *ssa.Call:
 			n := ssau.CallName(x)
 			if strings.HasPrefix(n, "maps.Copy") && len(x.Common().Args) == 2 && x.Common().Args[0] == ssa.Value(table) && isCtx(x.Common().Args[1]) {
@@ -484,7 +500,29 @@ func c13Scaling(c *Ctx, sx *symx.Ctx) {
 		}
 		r.Check(after && guarded && atLeast1, "O-2", key, c.P.Pos(mu.Pos()), fmt.Sprintf("if table[k] < %s { table[k] = %s } after the context copy", desc, desc), "an entry of the boost table is overwritten without the guard `table[k] < c` (or before the context boosts are copied in): a context boost can be replaced by a smaller factor, lowering the score of commands that contain the boosted word")
 	}
-	c13BoostFlow(c, sx, fn, fk, fLookup, tableUse)
+	if carrierOwner != "" {
+		// the scoring step that looks the table up through the carrier field
+		isCarrier := func(v ssa.Value) bool {
+			_, ok := ssau.IsFieldLoad(v, carrierOwner, carrierField)
+			return ok
+		}
+		var step *ssa.Function
+		for _, g := range shippedFuncs(c) {
+			if g == home || g.Pkg != home.Pkg {
+				continue
+			}
+			ssau.ForEachInstr(g, false, func(in ssa.Instruction) {
+				if l, ok := in.(*ssa.Lookup); ok && isCarrier(l.X) {
+					step = g
+				}
+			})
+		}
+		if step != nil {
+			c13BoostFlow(c, sx, step, load.FuncKey(step), sx.Of(step), isCarrier)
+			return
+		}
+	}
+	c13BoostFlow(c, sx, fn, fk, fLookup, func(v ssa.Value) bool { return tableUse != nil && v == tableUse })
 }
 
 // c13BoostFlow follows the looked-up boost from its lookup to the score
@@ -499,7 +537,7 @@ func c13Scaling(c *Ctx, sx *symx.Ctx) {
 // term's own postings, through helper parameters, results and local
 // variables. Wherever a boost-derived value leaves the merge (into a product,
 // a call, a result) it is positive: a constant > 0, or tested `> c` (c >= 0).
-func c13BoostFlow(c *Ctx, sx *symx.Ctx, fn *ssa.Function, fk string, fLookup *symx.Fn, tableUse ssa.Value) {
+func c13BoostFlow(c *Ctx, sx *symx.Ctx, fn *ssa.Function, fk string, fLookup *symx.Fn, isTable func(ssa.Value) bool) {
 	r := c.R
 	var post *ssa.Lookup
 	ssau.ForEachInstr(fn, false, func(in ssa.Instruction) {
@@ -515,9 +553,9 @@ func c13BoostFlow(c *Ctx, sx *symx.Ctx, fn *ssa.Function, fk string, fLookup *sy
 		site *ssa.Call // the call of home in fn (nil when home == fn)
 	}
 	var lks []boostLookup
-	if tableUse != nil {
+	if isTable != nil {
 		ssau.ForEachInstr(fn, false, func(in ssa.Instruction) {
-			if l, ok := in.(*ssa.Lookup); ok && l.X == tableUse {
+			if l, ok := in.(*ssa.Lookup); ok && isTable(l.X) {
 				lks = append(lks, boostLookup{l, fn, nil})
 			}
 		})
@@ -1466,4 +1504,43 @@ func c13ComputedBoost(c *Ctx, v ssa.Value, d int) string {
 		return "a boost computed by " + n
 	}
 	return ""
+}
+
+// c13FieldOnlyLookedUp: every load of owner.field in shipped code is used
+// for lookups and len only, and the field is stored to only by `only`.
+// "" when so, else what else happens to it.
+func c13FieldOnlyLookedUp(c *Ctx, owner, field string, only *ssa.Store) string {
+	why := ""
+	for _, g := range shippedFuncs(c) {
+		ssau.ForEachInstr(g, false, func(in ssa.Instruction) {
+			fa, ok := in.(*ssa.FieldAddr)
+			if !ok || ssau.FieldOwner(fa) != owner || ssau.FieldName(fa) != field {
+				return
+			}
+			for _, ref := range *fa.Referrers() {
+				switch x := ref.(type) {
+				case *ssa.Store:
+					if x != only {
+						why = "which is also assigned at " + c.P.Pos(x.Pos())
+					}
+				case *ssa.UnOp:
+					for _, r2 := range *x.Referrers() {
+						switch y := r2.(type) {
+						case *ssa.Lookup, *ssa.DebugRef:
+						case *ssa.Call:
+							if ssau.CallName(y) != "builtin.len" {
+								why = "which is handed to " + ssau.CallName(y) + " at " + c.P.Pos(y.Pos())
+							}
+						default:
+							why = "which is used by something other than a lookup at " + c.P.Pos(r2.Pos())
+						}
+					}
+				case *ssa.DebugRef:
+				default:
+					why = "whose address is taken at " + c.P.Pos(ref.Pos())
+				}
+			}
+		})
+	}
+	return why
 }
